@@ -269,6 +269,7 @@ func checkC13(c *Ctx) {
 		"C13.cofactor: BLS12-381 hash-to-curve and encode-to-curve (G1, G2) run map → isogeny → cofactor clearing in that order on every path, and FourQ's variable-base multiplication clears the cofactor of its input first",
 		"C13.sswu: each simplified-SWU implementation (G1 and G2 isogenous curves, the P-256/384/521 groups) keeps the three data-dependent selections of RFC 9380: the exceptional case (selector from a zero test), the square selection (selector from an equality test) and the sign correction (selector from sgn0)",
 		"C13.zguard: in ecc/bls12381 every inversion of a z coordinate, and every multiplication of a z coordinate into a product that is inverted, is guarded by a zero test of z (the identity has z = 0)",
+		"C13.incomplete-add: the incomplete Jacobian addition of the optimised P-384 (documented as unusable for doublings) is called only where the operands are distinct by construction (two listed call sites, with reasons) or under an equality test that diverts the doubling case",
 		"C13.neg: the generic short-Weierstrass element negation reduces -y modulo p (the identity (0,0) must stay (0,0))")
 	c.NotDec = append(c.NotDec,
 		"correctness of the addition / doubling formulas, scalar recodings, table look-ups, Miller loop and final exponentiation: value-level",
@@ -405,6 +406,89 @@ func checkC13(c *Ctx) {
 		}
 		if nfun < 3 {
 			c.undecided("C13.zguard", "projective-to-affine conversions of ecc/bls12381", fmt.Sprintf("only %d functions found (floor 3)", nfun), "")
+		}
+	}
+	// who may call the incomplete Jacobian addition of P-384: jacobianPoint.add is documented (and
+	// pinned by the repository's tests) as unusable for doublings, so each call site must either be
+	// one whose operands are distinct by construction, or be guarded by an equality test
+	{
+		allowed := map[string]string{
+			"(ecc/p384.affinePoint).oddMultiples": "adds 2P to (2i-1)P: distinct for a point of prime order",
+			"(ecc/p384.curve).scalarMultOmega":    "regular odd signed-digit recoding keeps the accumulator a strict multiple larger than the table entry; the last iteration uses the complete formula",
+		}
+		add := p.Func("ecc/p384", "jacobianPoint", "add")
+		switch {
+		case add == nil && c.override != "":
+			c.ok("C13.incomplete-add", "call sites of ecc/p384 jacobianPoint.add", "not part of this build configuration", "")
+		case add == nil:
+			c.undecided("C13.incomplete-add", "call sites of ecc/p384 jacobianPoint.add", "function not found", "")
+		default:
+			n := 0
+			if node := p.CallGraph().Nodes[add]; node != nil {
+				seen := map[ssa.Instruction]bool{}
+				for _, e := range node.In {
+					caller := e.Caller.Func
+					if e.Site == nil || seen[e.Site] || caller == nil || !isCirclFunc(caller) {
+						continue
+					}
+					seen[e.Site] = true
+					n++
+					construct := fmt.Sprintf("%s calls jacobianPoint.add", fname(caller))
+					if why, ok := allowed[fname(caller)]; ok {
+						c.ok("C13.incomplete-add", construct, "operands distinct by construction: "+why, p.pos(e.Site.Pos()))
+						continue
+					}
+					// diverted: the caller tests the operands for equality, the equal branch doubles instead,
+					// and the incomplete addition is not on the equal branch
+					guarded := false
+					var walk func(v ssa.Value, depth int) bool
+					walk = func(v ssa.Value, depth int) bool {
+						if depth > 6 {
+							return false
+						}
+						switch x := v.(type) {
+						case *ssa.Call:
+							return strings.Contains(strings.ToLower(p.staticCalleeName(&x.Call)), "isequal")
+						case *ssa.UnOp:
+							return walk(x.X, depth+1)
+						case *ssa.BinOp:
+							return walk(x.X, depth+1) || walk(x.Y, depth+1)
+						}
+						return false
+					}
+					for _, b := range caller.Blocks {
+						ifi, ok := b.Instrs[len(b.Instrs)-1].(*ssa.If)
+						if !ok || !walk(ifi.Cond, 0) {
+							continue
+						}
+						eq := b.Succs[0]
+						if u, isU := ifi.Cond.(*ssa.UnOp); isU && u.Op == token.NOT {
+							eq = b.Succs[1]
+						}
+						doubles := false
+						for _, in := range eq.Instrs {
+							if ci, ok := in.(ssa.CallInstruction); ok && strings.HasSuffix(p.staticCalleeName(ci.Common()), ").double") {
+								doubles = true
+							}
+						}
+						if doubles && len(eq.Preds) == 1 && !eq.Dominates(e.Site.Block()) {
+							for _, sc := range b.Succs {
+								if sc != eq && (sc == e.Site.Block() || sc.Dominates(e.Site.Block())) {
+									guarded = true
+								}
+							}
+						}
+					}
+					if guarded {
+						c.ok("C13.incomplete-add", construct, "under an equality test of the operands (the equal case is diverted)", p.pos(e.Site.Pos()))
+					} else {
+						c.bad("C13.incomplete-add", construct, "the incomplete addition is called with operands that may coincide and there is no equality test diverting the doubling case", p.pos(e.Site.Pos()))
+					}
+				}
+			}
+			if n < 3 {
+				c.undecided("C13.incomplete-add", "call sites of ecc/p384 jacobianPoint.add", fmt.Sprintf("only %d call sites found (floor 3)", n), "")
+			}
 		}
 	}
 	// negation reduces
